@@ -16,6 +16,7 @@ CXX = os.environ.get("CXX", "g++")
 COMMON = ["-std=c++20", "-w", "-pthread"]
 VARIANTS = {
     "plain": {"sut": ["-O1", "-fsanitize-coverage=trace-pc"], "rt": ["-O2"], "link": [], "defs": []},
+    "sched": {"sut": ["-O1", "-fsanitize=thread", "-fsanitize-coverage=trace-pc"], "rt": ["-O2"], "link": [], "defs": []},
     "asan": {"sut": ["-O1", "-g1", "-fsanitize-coverage=trace-pc", "-fsanitize=address,undefined", "-fno-sanitize-recover=undefined", "-fno-omit-frame-pointer"],
              "rt": ["-O1", "-g1", "-fsanitize=address"], "link": ["-fsanitize=address,undefined"], "defs": ["-DSIMRT_ASAN"]},
 }
@@ -24,6 +25,12 @@ ENGINES = {
                      "simA/enum19.cpp", "simA/main.cpp"],
              "rt": ["simrt/heap.cpp", "simrt/clock_fatal.cpp"],
              "link": ["-Wl,--wrap=abort", "-Wl,--wrap=fprintf"], "bin": "simA"},
+    "simB": {"sut": ["simB/ops.cpp", "simB/main.cpp"], "rt": [], "so": ["simB/rt.cpp", "simrt/heap.cpp", "simrt/clock_fatal.cpp"], "bin": "simB",
+             "link": ["-rdynamic", "-ldl"] + ["-Wl,--wrap=" + s for s in
+                      ["abort", "fprintf", "memcpy", "memmove", "memset", "memcmp", "memchr", "strlen", "wmemcpy", "wmemmove", "wmemset", "wmemcmp", "wmemchr", "wcslen",
+                       "snprintf", "strtol", "strtoul", "strtoll", "strtoull", "strtof", "strtod", "__cxa_guard_acquire", "__cxa_guard_release", "__cxa_guard_abort",
+                       "pthread_mutex_lock", "pthread_mutex_trylock", "pthread_mutex_unlock", "pthread_once", "pthread_cond_wait", "pthread_cond_timedwait",
+                       "pthread_rwlock_rdlock", "pthread_rwlock_wrlock"]]},
     "simC": {"sut": ["simC/simc.cpp", "simC/main.cpp"], "rt": ["simrt/heap.cpp", "simrt/clock_fatal.cpp"],
              "link": ["-Wl,--wrap=abort", "-Wl,--wrap=fprintf"], "bin": "simC"},
 }
@@ -75,6 +82,11 @@ def main():
         for src in eng["rt"]:
             obj = os.path.join(out, src.replace("/", "_") + ".o")
             jobs.append(([CXX] + COMMON + var["rt"] + var["defs"] + inc + ["-c", os.path.join(VERIF, src), "-o", obj], obj))
+        so_objs = []
+        for src in eng.get("so", []):
+            obj = os.path.join(out, "so_" + src.replace("/", "_") + ".o")
+            jobs.append(([CXX] + COMMON + ["-O2", "-fPIC", "-DSIMRT_NO_TRACE_PC"] + inc + ["-c", os.path.join(VERIF, src), "-o", obj], obj))
+            so_objs.append(obj)
         def run(job):
             r = subprocess.run(job[0], stdout=subprocess.PIPE, stderr=subprocess.STDOUT, text=True)
             return (r.returncode, r.stdout, job)
@@ -85,8 +97,16 @@ def main():
             for rc, outp, job in bad:
                 sys.stderr.write("BUILD FAILED: %s\n%s\n" % (" ".join(job[0]), outp[-6000:]))
             return 2
-        objs = [j[1] for j in jobs]
-        link = [CXX] + COMMON + objs + eng["link"] + var["link"] + ["-o", binpath]
+        objs = [j[1] for j in jobs if j[1] not in so_objs]
+        solink = []
+        if so_objs:
+            so = os.path.join(out, "libsimb_rt.so")
+            r = subprocess.run([CXX, "-shared", "-pthread"] + so_objs + ["-ldl", "-o", so], stdout=subprocess.PIPE, stderr=subprocess.STDOUT, text=True)
+            if r.returncode != 0:
+                sys.stderr.write("SO LINK FAILED:\n%s\n" % r.stdout[-6000:])
+                return 2
+            solink = ["-L" + out, "-lsimb_rt", "-Wl,-rpath," + out]
+        link = [CXX] + COMMON + objs + solink + eng["link"] + var["link"] + ["-o", binpath]
         r = subprocess.run(link, stdout=subprocess.PIPE, stderr=subprocess.STDOUT, text=True)
         if r.returncode != 0:
             sys.stderr.write("LINK FAILED: %s\n%s\n" % (" ".join(link), r.stdout[-6000:]))
